@@ -102,14 +102,20 @@ def generate(rng, tier):
     n = 0
     for _ in range(80 if tier == 'quick' else 2500):
         items = rand_flat(r)
-        placement = r.pick(['cwd', 'searchpath', 'absolute'])
+        placement = r.pick(['cwd', 'searchpath', 'absolute', 'symlink'])
+        linked = placement == 'symlink'       # the search-path directory holds symbolic links to the files
+        if linked:
+            placement = 'searchpath'
         prefix = {'cwd': b'', 'searchpath': b'', 'absolute': b'${ROOT}/inc/'}[placement]
         fs = Files(prefix)
         main = split_items(r, items, fs, [1 + r.below(6)])
         lines = ['envroot ' + hx(b'ROOT')] + gen.prelude(SCHEMA, 0) + ['init 1 0 0']
         d = {'cwd': b'', 'searchpath': b'sp/', 'absolute': b'inc/'}[placement]
         for name, text in fs.files.items():
-            lines.append('file %s file %s' % (hx(d + name), hx(text)))
+            if linked:
+                lines += ['file %s file %s' % (hx(b'real/' + name), hx(text)), 'file %s link %s' % (hx(d + name), hx(b'real/' + name))]
+            else:
+                lines.append('file %s file %s' % (hx(d + name), hx(text)))
         if placement == 'searchpath':
             lines.append('file %s dir' % hx(b'other'))
             lines += ['searchpath 1 ' + hx(b'other'), 'searchpath 1 ' + hx(b'sp')]
@@ -123,7 +129,7 @@ def generate(rng, tier):
         p1 = len(lines) - 1
         lines += ['dump 0', 'dump 1']
         n += 1
-        yield Scn('eq%d' % n, lines, {'class': 'equivalence/' + placement, 'kind': 'eq', 'depth': fs.maxdepth, 'p0': p0, 'p1': p1})
+        yield Scn('eq%d' % n, lines, {'class': 'equivalence/' + ('symlink' if linked else placement), 'kind': 'eq', 'depth': fs.maxdepth, 'p0': p0, 'p1': p1})
     # directed: an include inside every kind of section body (created at init or by the text), every placement
     for placement in ('cwd', 'searchpath', 'absolute'):
         for sec in (b'sec', b'm'):
